@@ -470,3 +470,162 @@ Definition run_history (dbl : bool) (gt : gtype) (gd : list annot) (warm : bool)
   | Err k => VErr k
   | Ok e => VL (map vhres (run_ops e (if warm then Some (row_dim gd, gd) else None) ops))
   end.
+
+(* ---- the whole object: several groups, each with graphic data AND measurements ------------
+   One value describes what the caller hands to AnnotationGroup(...) per group
+   ([gspec]) and to MicroscopyBulkSimpleAnnotations(...) ([sophdr]); [build_full]
+   follows the constructors (same guards, same order, same exception classes);
+   [parse_obj] is what from_dataset / annread leave of a group (decode cache empty,
+   measurement lengths forgotten); lookups return the group OBJECT, on which the
+   accessors are then called. *)
+Record gspec := mkGS {
+  s_info : ginfo;                       (* number, uid, label, codes, graphic type, algorithm *)
+  s_dbl : bool;                         (* precision of the concatenated coordinate array *)
+  s_gd : list annot;
+  s_ms : list (Z * list word)           (* (name id, values) per Measurements item *)
+}.
+
+Record gobj := mkGO {
+  o_info : ginfo;
+  o_enc : enc;
+  o_ms : list (Z * menc);
+  o_cache : gcache                      (* self._graphic_data *)
+}.
+
+(* the algorithm identification is stored only when the type is not MANUAL (type 0) *)
+Definition norm_info (g : ginfo) : ginfo :=
+  mkG (g_number g) (g_uid g) (g_label g) (g_cat g) (g_typ g) (g_gt g) (g_algtype g)
+      (if g_algtype g =? 0 then None else g_alg g).
+
+(* AnnotationGroup.__init__, in the order of the code: number, algorithm type (enum:
+   0 MANUAL, 1 SEMIAUTOMATIC, 2 AUTOMATIC, anything else is no member), algorithm
+   identification required unless MANUAL (TypeError), graphic data, measurement counts *)
+Definition build_group (s : gspec) : res gobj :=
+  let g := s_info s in
+  if g_number g <? 1 then Err VE
+  else if (g_algtype g <? 0) || (2 <? g_algtype g) then Err VE
+  else if negb (g_algtype g =? 0) && negb (is_some (g_alg g)) then Err "TypeError"
+  else bind (encode (s_dbl s) (g_gt g) (s_gd s)) (fun e =>
+         let ms := map (fun m => (fst m, m_encode (snd m))) (s_ms s) in
+         if group_accepts_measurements (e_n e) ms
+         then Ok (mkGO (norm_info g) e ms (Some (row_dim (s_gd s), s_gd s)))
+         else Err VE).
+
+(* MicroscopyBulkSimpleAnnotations.__init__ before the groups are looked at *)
+Record sophdr := mkH {
+  h_ctype_ok : bool;                    (* annotation_coordinate_type is "2D" or "3D" *)
+  h_3d : bool;
+  h_nsrc : Z;                           (* number of source images *)
+  h_nfor : Z;                           (* number of distinct FrameOfReferenceUIDs among them *)
+  h_ts_ok : bool                        (* transfer syntax implicit / explicit VR little endian *)
+}.
+
+Definition sop_header (h : sophdr) : res unit :=
+  if negb (h_ctype_ok h) then Err VE
+  else if 1 <? h_nfor h then Err VE
+  else if h_nsrc h =? 0 then Err VE
+  else if (1 <? h_nsrc h) && negb (h_3d h) then Err VE
+  else if negb (h_ts_ok h) then Err VE
+  else Ok tt.
+
+(* the caller builds the groups first (first failing group decides), then the instance *)
+Definition build_full (h : sophdr) (ss : list gspec) : res (list gobj) :=
+  bind (sequence_res (map build_group ss)) (fun os =>
+  bind (sop_header h) (fun _ =>
+    if numbered_from 1 (map o_info os) then Ok os else Err VE)).
+
+Definition parse_obj (o : gobj) : gobj :=
+  mkGO (o_info o) (o_enc o) (map (fun m => (fst m, m_parsed (snd m))) (o_ms o)) None.
+
+Definition unique_obj (items : list gobj) : res gobj :=
+  match items with [o] => Ok o | _ => Err VE end.
+
+(* get_annotation_group returning the group object *)
+Definition get_group_obj (os : list gobj) (number uid : option Z) : res gobj :=
+  match number, uid with
+  | None, None => Err "TypeError"
+  | Some k, _ => unique_obj (filter (fun o => g_number (o_info o) =? k) os)
+  | None, Some u => unique_obj (filter (fun o => g_uid (o_info o) =? u) os)
+  end.
+
+Definition get_groups_obj (os : list gobj) (q : query) : list gobj :=
+  filter (fun o => let m := match_list q (o_info o) in forallb (fun b => b) m || (length m =? 0)%nat) os.
+
+(* np.vstack(columns).T : row i = the i-th value of every selected measurement *)
+Definition transpose_cols (n : Z) (cols : list (list word)) : list (list word) :=
+  map (fun i => map (fun c => nth i c canonical_nan32) cols) (seq 0 (Z.to_nat n)).
+
+(* get_measurements as returned: names, n x m value matrix *)
+Definition get_measurement_matrix (n : Z) (ms : list (Z * menc)) (name : option Z)
+  : res (list Z * list (list word)) :=
+  bind (get_measurements n ms name) (fun r => Ok (fst r, transpose_cols n (snd r))).
+
+(* what is observed on one group object: accessor calls [ops] in that order, then
+   get_measurements under the name filters [names] (matrix form) *)
+Definition observe (o : gobj) (ops : list hop) (names : list (option Z)) : val :=
+  VL [VZ (g_number (o_info o));
+      VL (map vhres (run_ops (o_enc o) (o_cache o) ops));
+      VL (map (fun q => vres (fun r => VL [vz_list (fst r); vz_list2 (snd r)])
+                             (get_measurement_matrix (e_n (o_enc o)) (o_ms o) q)) names)].
+
+Inductive olookup := LNumber (k : Z) | LUid (u : Z) | LQuery (q : query).
+
+(* build the instance, optionally parse it, then: look a group up, call its accessors *)
+Definition run_object (h : sophdr) (ss : list gspec) (parsed : bool)
+           (ls : list (olookup * list hop * list (option Z))) : val :=
+  match build_full h ss with
+  | Err k => VErr k
+  | Ok os =>
+      let os' := if parsed then map parse_obj os else os in
+      VL (map (fun l =>
+                 match l with
+                 | (LNumber k, ops, names) =>
+                     vres (fun o => observe o ops names) (get_group_obj os' (Some k) None)
+                 | (LUid u, ops, names) =>
+                     vres (fun o => observe o ops names) (get_group_obj os' None (Some u))
+                 | (LQuery q, ops, names) =>
+                     VL (map (fun o => observe o ops names) (get_groups_obj os' q))
+                 end) ls)
+  end.
+
+(* ---- the index list as numpy computes it: np.cumsum(spans, dtype=np.int32) + 1 in two's
+   complement int32 (silent wrap).  [point_index_list] above is the same computation in
+   unbounded integers; C18_Proofs_Int32 proves that they agree whenever the group stores
+   fewer than 2^31 - 1 coordinate values (an OF / OD attribute holds at most 2^30 / 2^29). *)
+Definition wrap32 (z : Z) : Z := (z + 2147483648) mod 4294967296 - 2147483648.
+
+Fixpoint cumsum32_from (acc : Z) (l : list Z) : list Z :=
+  match l with
+  | [] => []
+  | x :: t => let a := wrap32 (acc + wrap32 x) in a :: cumsum32_from a t
+  end.
+
+Definition index_list32_of_spans (spans : list Z) : list Z :=
+  1 :: removelast (map (fun c => wrap32 (c + 1)) (cumsum32_from 0 spans)).
+
+Definition point_index_list32 (sd : Z) (gd : list annot) : list Z :=
+  index_list32_of_spans (map (fun a => zlen a * sd) gd).
+
+(* ---- from_dataset guards (MicroscopyBulkSimpleAnnotations / AnnotationGroup /
+   Measurements .from_dataset): the argument must be a Dataset (TypeError), of the ANN SOP
+   class (ValueError), and - when it carries file meta information - in a little endian
+   transfer syntax (ValueError; without file meta little endian is assumed) *)
+Inductive parse_input :=
+| PNotDataset
+| PDataset (sop_class_ok : bool) (file_meta_little_endian : option bool).
+
+Definition parse_sop_guard (p : parse_input) : res unit :=
+  match p with
+  | PNotDataset => Err "TypeError"
+  | PDataset false _ => Err VE
+  | PDataset true (Some false) => Err VE
+  | PDataset true _ => Ok tt
+  end.
+
+(* parse a written instance (or something else), then look groups up and read them *)
+Definition run_parse_guard (p : parse_input) (h : sophdr) (ss : list gspec)
+           (ls : list (olookup * list hop * list (option Z))) : val :=
+  match parse_sop_guard p with
+  | Err k => VErr k
+  | Ok _ => run_object h ss true ls
+  end.
